@@ -29,7 +29,8 @@ def check(run):
                        "free run: goroutines on real caches of all option combinations; non-trivial = trace contains a read hit; distinct by hash")
     run.assumptions += ["cacheutil.LRUCache honours its contract (C10) - modelled as MaybeRecycle/MaybeCloseFd",
                         "bytes abstracted to (writer id, number of 4-byte pieces); disk I/O errors not modelled",
-                        "free-running traces are decided by the monitor only (no conformance spec of the goroutine interleaving)"]
+                        "free-running traces are decided by the monitor only (no conformance spec of the goroutine interleaving)",
+                        "disk I/O errors: only a failing shard-directory creation under fs/reader.cacheData (reader-fault stage, monitor only)"]
     # M
     run.tlc_mc("ChunkCache", "ChunkCache_mc.cfg", {"NW": "2"}, workers=8, timeout=1500, name="ChunkCache_mc.cfg NW=2")
     run.tlc_mc("ChunkCache", "ChunkCache_mc.cfg", {"NW": "2", "Lens": "{0, 1}", "DirectMode": "TRUE"}, workers=8, timeout=1500, name="ChunkCache_mc.cfg direct, zero-length")
@@ -92,6 +93,22 @@ def check(run):
         run.cov["traces_validated_against_impl"] += len(traces)
         run.cov["distinct_nontrivial"] += len({digest(t) for s, t in traces if any(e.get("ev") == "ReadAt" for e in t)})
         run.add_samples([{"mode": "replay-" + j["name"], "events": t[:14]} for s, t in traces[3:4]], limit=3)
+    # fs/reader's use of the cache when persisting fails (monitor only): a hit after a failed Commit is still a committed value
+    fault = os.path.join(run.scratch, "fault.ndjson")
+    rc2, out2 = run.go_driver("", "./fs/reader/", {"fs/reader/verif_cachefault_test.go": "fs/reader/verif_cachefault_test.go"},
+                              "^TestVerifC11CacheFault$", env={"VERIF_FAULT_OUT": fault})
+    if rc2 != 0:
+        m = re.search(r"WARNING: DATA RACE\n(?:.*\n){0,40}", out2)
+        run.violation("datarace:fs/reader:cacheData", "data race reported in fs/reader under the cache-fault driver", {"log": (m.group(0) if m else out2[-4000:])})
+    fevents = read_ndjson(fault)
+    viol, mr = run.tlc_monitor("ChunkCacheMonitor", "ChunkCacheMonitor.cfg", fault, {"Keys": FREEKEYS, "NW": "200"})
+    log("[trace] reader-fault: %d traces %d events %d read hits: monitor %s" % (len(split_traces(fevents)), len(fevents),
+        sum(1 for e in fevents if e.get("ev") == "Read"), viol or "ok"))
+    run.cov["evaluations"] += len(fevents)
+    if viol:
+        report_monitor(run, viol, mr, fevents, "reader-fault", "fault")
+    else:
+        run.cov["traces_validated_against_impl"] += len(split_traces(fevents))
     # T (monitor only)
     events = read_ndjson(free)
     traces = split_traces(events)
